@@ -18,6 +18,7 @@ import (
 	"time"
 
 	remoteexecution "github.com/bazelbuild/remote-apis/build/bazel/remote/execution/v2"
+	"github.com/buildbarn/bb-remote-execution/pkg/proto/buildqueuestate"
 	"github.com/buildbarn/bb-remote-execution/pkg/scheduler"
 	"github.com/buildbarn/bb-remote-execution/pkg/scheduler/initialsizeclass"
 	"github.com/buildbarn/bb-remote-execution/pkg/scheduler/invocation"
@@ -747,6 +748,14 @@ func (e *Env) Execute(req *remoteexecution.ExecuteRequest, invocationPath string
 		c.Err = e.BQ.Execute(req, c.Stream)
 	})
 	return call
+}
+
+// KillOperationGated starts a KillOperations RPC (operation name filter)
+// in a tracked goroutine; its authorization step parks at the gate.
+func (e *Env) KillOperationGated(req *buildqueuestate.KillOperationsRequest, authGate *Gate) *Call {
+	return e.Go("KillOperations", context.Background(), nil, func(ctx context.Context, c *Call) {
+		_, c.Err = e.BQ.KillOperations(context.WithValue(ctx, gateKeyType{}, authGate), req)
+	})
 }
 
 // WaitExecution starts a WaitExecution RPC in a tracked goroutine.
